@@ -308,6 +308,40 @@ def build(tier="quick", seed=0):
                 out = list(it.iterate(rdr))
                 got = [it.getattr_(it.getattr_(o, "_desc"), "name") for o in out]
                 return None if got == ["c03/dl", "c03/a"] else f"after a refused write the stream reads back as {got}, written: c03/dl, c03/a"
+            if kind == "a record type without fields":
+                # a record type may have no fields of its own (a marker record, a projection that excluded everything): its definition is emitted and found again like any other
+                E = it.call(RD, ["c03/empty", []], {})
+                fp, w, events = mk(None)
+                recs = [it.call(E, [], {}), a, it.call(N, [], {"r": it.call(E, [], {}), "rs": []}), it.call(E, [], {})]
+                for r in recs:
+                    it.call(it.getattr_(w, "write"), [r], {})
+                bad = well_ordered(events(), [])
+                if bad:
+                    return bad
+                if fmt == "stream":
+                    rdr = it.call(st.g["RecordStreamReader"], [AbsFile(it, fp.content())], {})
+                else:
+                    rdr = it.call(jf.g["JsonfileReader"], [AbsFile(it, fp.content(), mode="r")], {})
+                got = [it.getattr_(it.getattr_(o, "_desc"), "name") for o in it.iterate(rdr)]
+                return None if got == ["c03/empty", "c03/a", "c03/nest", "c03/empty"] else f"records read back as {got}, written: c03/empty, c03/a, c03/nest, c03/empty"
+            if kind == "grouped records of different shapes, flattened":
+                # every grouped record is an instance of one Python class; which definition a line needs is decided by ITS flat descriptor
+                P = it.call(RD, ["c03/p", [("varint", "n")]], {})
+                Q = it.call(RD, ["c03/q", [("string", "country")]], {})
+                gs = [it.call(GR, ["c03/grp", [it.call(P, [], {"n": 1}), b]], {}), it.call(GR, ["c03/grp", [b, it.call(P, [], {"n": 2})]], {}), it.call(GR, ["c03/grp2", [it.call(Q, [], {"country": "nl"}), it.call(P, [], {"n": 3})]], {}),
+                      it.call(GR, ["c03/grp", [it.call(P, [], {"n": 4}), b]], {})]
+                want = [(it.getattr_(it.getattr_(g, "_desc"), "name"), [tuple(f) for f in it.call(it.getattr_(it.getattr_(g, "_desc"), "get_field_tuples"), [], {})]) for g in gs]
+                fp, w, events = mk(None)
+                for g in gs:
+                    it.call(it.getattr_(w, "write"), [g], {})
+                ev = events()
+                bad = well_ordered(ev, [])
+                if bad:
+                    return bad
+                rdr = it.call(jf.g["JsonfileReader"], [AbsFile(it, fp.content(), mode="r")], {})
+                out = list(it.iterate(rdr))
+                got = [(it.getattr_(it.getattr_(o, "_desc"), "name"), [tuple(f) for f in it.call(it.getattr_(it.getattr_(o, "_desc"), "get_field_tuples"), [], {})]) for o in out]
+                return None if got == want else f"grouped records read back with descriptors {got}, written with {want}"
             if kind == "two writers":
                 fp1, w1, ev1 = mk(None)
                 fp2, w2, ev2 = mk(None)
@@ -336,10 +370,10 @@ def build(tier="quick", seed=0):
             raise KeyError(kind)
         return th
 
-    KINDS = ["new type", "known type", "same name registered", "nested, nothing known", "nested, holder known", "nested, inner known", "grouped, nothing known", "grouped, one member known", "grouped, same names registered", "grouped twice, other members", "same hash text, other name", "write refused while packing, caller carries on", "names that differ only in '/' and '_'", "declared with byte strings", "two writers", "frame"]
+    KINDS = ["new type", "known type", "same name registered", "nested, nothing known", "nested, holder known", "nested, inner known", "grouped, nothing known", "grouped, one member known", "grouped, same names registered", "grouped twice, other members", "same hash text, other name", "write refused while packing, caller carries on", "names that differ only in '/' and '_'", "declared with byte strings", "two writers", "frame", "a record type without fields", "grouped records of different shapes, flattened"]
     for fmt in ("stream", "json"):
         for kind in KINDS:
-            if fmt == "json" and kind.startswith("grouped"):
+            if fmt == "json" and kind.startswith("grouped") and "flattened" not in kind or fmt == "stream" and "flattened" in kind:
                 continue  # the JSON packer flattens grouped records into one object of the flat type (C14)
             name = f"C03.write[{fmt}, {kind}]"
             pack.add(Obligation(name, lambda tier, name=name, kind=kind, fmt=fmt: prove_paths(name, scenario(kind, fmt), lambda p: (p.value is None, str(p.value)), lambda m_, p: {}, allow_raise=("UnicodeEncodeError", "error")),
